@@ -606,6 +606,77 @@ theorem mean_dir_ok (f : Fld) (hf : WF f) (hsubs : f.mesh.subs = []) (h2 : 2 ≤
   simp only [hax, hsel, mkFld, hshape, ne_eq, not_true_eq_false, if_false]
   exact ⟨_, rfl⟩
 
+/-- one step of a direction-by-direction integration succeeds and keeps everything needed
+for the next step -/
+theorem step_ok (f : Fld) (hf : WF f) (hsubs : f.mesh.subs = []) (h2 : 2 ≤ f.mesh.ndim) (d : String)
+    (hd : d ∈ f.mesh.region.dims) :
+    ∃ g, integrate f (.name d) false = .ok (.field g) ∧ WF g ∧ g.mesh.subs = [] ∧
+      g.mesh.ndim + 1 = f.mesh.ndim ∧
+      ∀ d' ∈ f.mesh.region.dims, d' ≠ d → d' ∈ g.mesh.region.dims := by
+  obtain ⟨g, hg, hgs⟩ := (integrate_dir_ok f hf hsubs d hd).1 h2
+  obtain ⟨ax, m', hax, _, hsel, hshape, hgeq⟩ := integrate_dir_unpack f d g hg
+  obtain ⟨ax', hax', haxlt, hpmin, _, hdims, _, hn, hgshape, _⟩ := integrate_dir f hf d g hg
+  rw [hax] at hax'; injection hax' with hax'; subst hax'
+  have hgm : g.mesh = m' := by rw [hgeq]
+  have hwf : WF g := ⟨by rw [hgm]; exact sel_inv f.mesh hf.1 d m' hsel, by rw [hgshape, hn]⟩
+  obtain ⟨_, hdname⟩ := dim2index_ok _ _ _ hax
+  refine ⟨g, hg, hwf, hgs, ?_, ?_⟩
+  · have h1' : g.mesh.ndim = g.mesh.region.pmin.length := rfl
+    have h2' : f.mesh.ndim = f.mesh.region.pmin.length := rfl
+    rw [h1', hpmin, removeAt_length _ _ (by rw [← h2']; exact haxlt), ← h2']
+    omega
+  · intro d' hd' hne
+    rw [hdims]
+    exact mem_removeAt _ _ _ hd' (by rw [hdname]; exact fun h => hne h.symm)
+
+/-- Integrating over some (not all) of the directions one after the other succeeds, for every
+order, on a well-formed field without subregions. -/
+theorem integrateSeq_ok (f : Fld) (hf : WF f) (hsubs : f.mesh.subs = []) (ds : List String)
+    (hnd : ds.Nodup) (hmem : ∀ d ∈ ds, d ∈ f.mesh.region.dims) (hlen : ds.length < f.mesh.ndim) :
+    ∃ gi, integrateSeq f ds = .ok (.field gi) := by
+  induction ds generalizing f with
+  | nil => exact ⟨f, rfl⟩
+  | cons d ds ih =>
+    have hlen' : ds.length + 1 < f.mesh.ndim := by simpa using hlen
+    obtain ⟨g, hg, hwf, hgs, hgnd, hgmem⟩ := step_ok f hf hsubs (by omega) d (hmem d (by simp))
+    obtain ⟨hdn, hnd'⟩ := List.nodup_cons.mp hnd
+    obtain ⟨gi, hgi⟩ := ih g hwf hgs hnd'
+      (fun d' hd' => hgmem d' (hmem d' (by simp [hd'])) (fun h => hdn (h ▸ hd'))) (by omega)
+    exact ⟨gi, by unfold integrateSeq; simp only [hg]; exact hgi⟩
+
+/-- `mean(list)` over some (not all) of the directions succeeds, for every order, on a
+well-formed field without subregions. -/
+theorem mean_dirs_ok (f : Fld) (hf : WF f) (hsubs : f.mesh.subs = []) (ds : List String)
+    (hnd : ds.Nodup) (hmem : ∀ d ∈ ds, d ∈ f.mesh.region.dims) (hlen : ds.length < f.mesh.ndim) :
+    ∃ gm, mean f (.names ds) = .ok (.field gm) := by
+  obtain ⟨gi, hgi⟩ := integrateSeq_ok f hf hsubs ds hnd hmem hlen
+  obtain ⟨axes, C', hax, hselm, hinv, _⟩ := chain f hf ds f _ 1 gi (chainInv_init f hf) hgi
+  rw [← keepMask_eq_foldl] at hinv
+  obtain ⟨_, _, _, _, _, _, _, hn, _⟩ := hinv
+  have hdup : hasDup ds = false := hasDup_of_nodup ds hnd
+  have hnot : sameMultiset ds f.mesh.region.dims = false := by
+    cases h : sameMultiset ds f.mesh.region.dims with
+    | false => rfl
+    | true =>
+      have := ((sameMultiset_iff_perm _ _).mp h).length_eq
+      have hdl : f.mesh.region.dims.length = f.mesh.ndim := hf.1.1.2.2.1
+      omega
+  have hshape : (meanAxes f.nvdim f.data axes).shape = gi.mesh.n := by
+    show filterMask (keepMask f.data.shape.length axes) f.data.shape = _
+    rw [hf.2, hn]
+  unfold mean
+  simp only [hdup, Bool.false_eq_true, if_false, hnot, hselm, hax, mkFld, hshape, ne_eq, not_true_eq_false]
+  exact ⟨_, rfl⟩
+
+/-- on a 1-d mesh `mean(d)` with a bare direction name is rejected (there is no 0-dimensional
+mesh to return a field on; `mean([d])` and `mean()` return the array) -/
+theorem mean_dir_1d_rejected (f : Fld) (hf : WF f) (h1 : f.mesh.ndim = 1) (d : String) (r : Res) :
+    mean f (.name d) ≠ .ok r := by
+  intro h
+  obtain ⟨ax, m', _, hsel, _, _⟩ := mean_name_unpack f d r h
+  obtain ⟨_, _, _, h2, _⟩ := sel_spec f.mesh hf.1 d m' hsel
+  omega
+
 /-! ## Refusals -/
 
 /-- a cumulative integral over all directions is rejected -/
@@ -629,5 +700,57 @@ theorem mean_rejects (f : Fld) (ds : List String) (h : hasDup ds = true) :
     mean f (.names ds) = .error .value ∧ mean f .other = .error .value := by
   unfold mean
   simp [h]
+
+/-! ## Non-vacuity: the hypotheses of the theorems above are met by concrete fields
+(`exFld`: 2×3 cells, two components; `exFld1`: 1-d, cells of length 1/2; `exFld3`: 2×2×3 cells
+of sizes 1, 1/2, 2 — `DFV/Lemmas/C06Ok.lean`), and by every well-formed field without
+subregions (theorems `…_ok`). -/
+
+example : WF exFld ∧ WF exFld1 ∧ WF exFld3 := ⟨exFld_wf, exFld1_wf, exFld3_wf⟩
+
+/-- hypotheses of `integrate_dir`, `cumulative_formula`, `cumulative_last`, `mean_dir_eq` -/
+example : (∃ g, integrate exFld3 (.name "y") false = .ok (.field g)) ∧
+    (∃ g, integrate exFld3 (.name "y") true = .ok (.field g)) ∧
+    (∃ g, mean exFld3 (.name "y") = .ok (.field g)) :=
+  ⟨by obtain ⟨g, h, _⟩ := (integrate_dir_ok exFld3 exFld3_wf rfl "y" (by decide)).1 (by decide); exact ⟨g, h⟩,
+   integrate_cum_ok exFld3 exFld3_wf "y" (by decide),
+   mean_dir_ok exFld3 exFld3_wf rfl (by decide) "y" (by decide)⟩
+
+/-- hypotheses of `integrate_dir_1d`, `cumulative_last_1d` -/
+example : (∃ v, integrate exFld1 (.name "x") false = .ok (.vals v)) ∧
+    (∃ g, integrate exFld1 (.name "x") true = .ok (.field g)) :=
+  ⟨(integrate_dir_ok exFld1 exFld1_wf rfl "x" (by decide)).2 rfl, integrate_cum_ok exFld1 exFld1_wf "x" (by decide)⟩
+
+/-- `fubini` / `fubini_total`: all six orders of three directions -/
+example : ∀ ds ∈ [["x", "y", "z"], ["x", "z", "y"], ["y", "x", "z"], ["y", "z", "x"], ["z", "x", "y"], ["z", "y", "x"]],
+    integrateSeq exFld3 ds = integrate exFld3 .none false := by
+  intro ds hds
+  simp only [List.mem_cons, List.mem_nil_iff, or_false] at hds
+  rcases hds with rfl | rfl | rfl | rfl | rfl | rfl <;>
+    exact fubini_total exFld3 exFld3_wf rfl _ (by decide) (by decide) rfl
+
+/-- hypotheses of `mean_dirs_eq`: a proper subset of the directions, in an order that is not
+the storage order -/
+example : (∃ gm, mean exFld3 (.names ["z", "x"]) = .ok (.field gm)) ∧
+    (∃ gi, integrateSeq exFld3 ["z", "x"] = .ok (.field gi)) :=
+  ⟨mean_dirs_ok exFld3 exFld3_wf rfl _ (by decide) (by decide) (by decide),
+   integrateSeq_ok exFld3 exFld3_wf rfl _ (by decide) (by decide) (by decide)⟩
+
+/-- `mean_all_named`: a permutation of the directions -/
+example : mean exFld (.names ["y", "x"]) = mean exFld .none :=
+  mean_all_named exFld exFld_wf _ (List.Perm.swap "x" "y" [])
+
+/-- hypotheses of `integrate_linear` (two fields on one mesh), `integrate_componentwise`,
+`integrate_translation_invariant` (the moved field is well formed and its integrals exist) -/
+example : ∃ rf rg r', integrate exFld (.name "x") false = .ok rf ∧
+    integrate (lin 2 exFld (-3) exFld) (.name "x") false = .ok rg ∧
+    integrate (translate [5, -7/2] exFld) (.name "x") false = .ok r' := by
+  obtain ⟨g1, h1, _⟩ := (integrate_dir_ok exFld exFld_wf rfl "x" (by decide)).1 (by decide)
+  obtain ⟨g2, h2, _⟩ := (integrate_dir_ok (lin 2 exFld (-3) exFld) ⟨exFld_wf.1, exFld_wf.2⟩ rfl "x" (by decide)).1 (by decide)
+  obtain ⟨g3, h3, _⟩ := (integrate_dir_ok (translate [5, -7/2] exFld) (translate_wf _ _ exFld_wf) rfl "x" (by decide)).1 (by decide)
+  exact ⟨_, _, _, h1, h2, h3⟩
+
+/-- refusals are reached: an unknown name, a duplicate -/
+example : exFld.mesh.region.dim2index "q" = .error .value ∧ hasDup ["x", "y", "x"] = true := ⟨by decide, by decide⟩
 
 end DFV.C06
